@@ -16,9 +16,28 @@ class Clause:
         self.ast = ast.parse(expr.strip(), mode="eval").body if isinstance(expr, str) else None
 
 
+PREFIX_PROPS = {"c03_": ("C03",), "c10_": ("C10",), "c13_": ("C13",), "c02_": ("C02",), "c04_": ("C04",), "c19_": ("C19",), "hist_": ("C19",), "c05_": ("C05",), "c01_": ("C01",),
+                "c14_": ("C14",), "c15_": ("C15",), "c18_": ("C18",), "c16_": ("C16",), "c09_": ("C09",)}
+
+
+LOOPG = {"C03", "C13", "C12"}
+DEPS = {
+    "C01": {"C01"}, "C02": {"C02", "C19", "C04"} | LOOPG, "C03": {"C03"}, "C04": {"C04"} | LOOPG, "C05": {"C05", "C19", "C04", "C02"} | LOOPG, "C10": {"C10", "C03"},
+    "C12": {"C12"}, "C13": {"C13", "C03"}, "C17": {"C17"}, "C19": {"C19", "C04"} | LOOPG, "C14": {"C14"} | LOOPG, "C18": {"C18"} | LOOPG, "C15": {"C15"},
+    "C16": {"C16"}, "C09": {"C09"} | LOOPG, "C11": {"C11"}, "C08": {"C08"}, "C20": {"C20"}, "C07": {"C07"},
+}
+
+
+def props_of_name(name):
+    for pre, pr in PREFIX_PROPS.items():
+        if name.startswith(pre):
+            return pr
+    return ()
+
+
 class LoopSpec:
     def __init__(self, invariants=None, variant=None, modifies_extra=None, ghost=None, props=()):
-        self.invariants = [Clause(k, v) if not isinstance(v, Clause) else v for k, v in (invariants or {}).items()]
+        self.invariants = [Clause(k, v, props=props_of_name(k)) if not isinstance(v, Clause) else v for k, v in (invariants or {}).items()]
         self.variant = [ast.parse(v, mode="eval").body for v in (variant or [])]
         self.variant_src = list(variant or [])
         self.modifies_extra = modifies_extra or []
@@ -158,8 +177,8 @@ class Contract:
 
     def callsite(self, suffix, clauses, top=(), props=()):
         """Obligations checked at every call of a modelled callable whose path ends with `suffix`
-        (the argument is bound to the name `arg`)."""
-        self.callsites[suffix] = [Clause(k, v, top=(k in top), props=props) for k, v in clauses.items()]
+        (the argument is bound to the name `arg`).  props: tuple for all clauses, or dict clause name -> tuple."""
+        self.callsites[suffix] = [Clause(k, v, top=(k in top), props=(props.get(k, ()) if isinstance(props, dict) else props)) for k, v in clauses.items()]
         return self
 
     def choose(self, stmt_text, var, pred, when="True", props=()):
